@@ -452,7 +452,12 @@ func corpusC04(ctx *Ctx, op string, raw json.RawMessage) {
 	}
 	if op == "diff-cli" {
 		ci := &c04CLIInput{S1: in.S1, S2: in.S2, New: hxRows(in.S1.Rows), Old: hxRows(in.S2.Rows)}
-		ctx.Emit("diff-cli", ci, c04CLIRun(in.S1, in.S2), true, "cli", "corpus")
+		var e struct {
+			Earlier []c04Earlier `json:"earlier"`
+		}
+		json.Unmarshal(raw, &e)
+		ci.Earlier = e.Earlier
+		ctx.Emit("diff-cli", ci, c04CLIRun(in.S1, in.S2, ci.Earlier), true, "cli", "corpus")
 		return
 	}
 	c04CaseVia(ctx, in.S1, in.S2, IngestCfg{}, IngestCfg{}, in.Via, "corpus")
